@@ -104,6 +104,7 @@ var directedNames = []string{
 	"company-id-control", "return-code", "service-class-control", "service-class-header", "batch-order", "batch-number", "check-digit", "batch-addenda-count",
 	"file-addenda-count", "ctx-addenda-records", "addenda-indicator", "prenote-with-amount", "zero-amount-balanced", "amount-plus-balanced", "special-char",
 	"addenda-sequence", "iat-addenda-records", "block-count-zero", "file-header-field", "batch-header-field",
+	"destination-zero-filled", "origin-zero-filled",
 }
 
 var specials = []string{"\x7f", "\x1f", "€", "→", "日", "ß", " ", "`", "\x00", "Ø", "¡"}
@@ -113,6 +114,20 @@ func directed(r *gen.Rand, ls []string, name string) ([]string, bool) {
 	out := append([]string{}, ls...)
 	adv := isADVText(ls)
 	switch name {
+	case "destination-zero-filled", "origin-zero-filled":
+		// the legitimate alternative spelling of the 10-column routing fields: zero-filled instead of blank-filled
+		i, ok := pickIdx(r, recs(out, '1'))
+		if !ok {
+			return nil, false
+		}
+		col := 3
+		if name == "origin-zero-filled" {
+			col = 13
+		}
+		if field(out[i], col, col+1) != " " {
+			return nil, false
+		}
+		out[i] = put(out[i], col, "0")
 	case "origin-zero":
 		i, ok := pickIdx(r, recs(out, '1'))
 		if !ok {
